@@ -257,7 +257,7 @@ class Parser(object):
 
             if 'prefix' in unit_element:
                 try:
-                    power = UNIT_PREFIXES[unit_element['prefix']]
+                    power = UNIT_PREFIXES[unit_element['prefix'].strip()]
                 except KeyError:
                     # Assume that prefix is an integer.
                     power = '1e%d' % int(unit_element['prefix'])
